@@ -106,6 +106,17 @@ def expr_instances(tier, seed, mode, fam, ops=None, full=False, safety=False):
     return L
 
 
+def ptrcmp_instances(tier, seed, mode, fam):
+    """relational/equality operators on two pointers to int with symbolic addresses (unsigned comparison of 64-bit values)"""
+    L = []
+    for opk in (7, 8, 9, 10, 11, 12):
+        L.append(Inst('%s.%s.ptr.ptr' % (fam, OPS[opk]), 'h_expr.c', {'LT': 9, 'RT': 9, 'OPK': opk, 'WANT': 6, 'LCONV': 9, 'RCONV': 9, 'PTRMODE': None, mode: None},
+                      units=['expr', 'eval', 'type', 'util'], overrides=['fatal', 'xmalloc', 'error'], native_units=NATIVE, unwind=4,
+                      unwindset=['il_run.0:24', 'il_is_stop.0:14'], family=fam + '.ptrcmp', backends=['sat'], timeout=120,
+                      bound={'operator': OPS[opk], 'operands': 'pointers to int, symbolic addresses, freshly allocated pointer types'}))
+    return L
+
+
 def cast_instances(tier, seed, mode, fam, safety=False):
     L = []
     for l in range(len(TYPES)):
